@@ -35,14 +35,14 @@ HARNESS = ["invoices/c15_test.go"]
 D1_KEY = "replay:keysend-expiry-precheck"
 
 # (k1, k2, NC, Amts, MaxEvents): closure of the model for that pair of invoice kinds (MaxEvents = 0: all reachable
-# states; measured with 4 workers: quick set 0.12M-0.58M generated / 4k-15k distinct states, 9-51 s each; thorough adds
+# states; measured with 4 workers: quick set 0.12M-0.58M generated / 4k-15k distinct states, 9-40 s each; thorough adds
 # regular+hold and noaddr+holdna with 3 circuits and all four amounts: 2.9M / 62k and 3.3M / 77k, 3.5-4.5 min each.
 # amp+regular with 3 circuits does not close within the budget (> 9M generated): bounded to 5 events there)
 FULL = "{3, 2, 4, 5}"
 HALF = "{2, 4}"
 MC_QUICK = [("regular", "hold", 3, HALF, 0), ("regular", "hold", 2, FULL, 0), ("zeroamt", "keysend", 2, FULL, 0),
-            ("noaddr", "holdna", 3, HALF, 0), ("amp", "regular", 2, FULL, 0)]
-MC_THOROUGH = MC_QUICK + [("regular", "hold", 3, FULL, 0), ("noaddr", "holdna", 3, FULL, 0), ("hold", "hold", 3, HALF, 0),
+            ("noaddr", "holdna", 3, HALF, 0), ("amp", "regular", 2, HALF, 0)]
+MC_THOROUGH = MC_QUICK + [("amp", "regular", 2, FULL, 0), ("regular", "hold", 3, FULL, 0), ("noaddr", "holdna", 3, FULL, 0), ("hold", "hold", 3, HALF, 0),
                           ("regular", "regular", 3, HALF, 0), ("keysend", "holdna", 3, HALF, 0),
                           ("amp", "amp", 2, FULL, 0), ("keysend", "amp", 2, FULL, 0), ("holdna", "amp", 2, FULL, 0),
                           ("amp", "regular", 3, HALF, 5)]
@@ -353,7 +353,9 @@ def class_counts(recs):
                     can = any(h["st"] == "canceled" for h in x["h"])
                     if r["a"] == "Settle" and r["res"] == "ok" and r["k"] == k + 1 and can:
                         out["hold_settled_with_canceled_shard"] += 1
-                    if r["a"] == "Cancel" and r["res"] == "ok" and r["k"] == k + 1 and tr[i - 1]["inv"][k]["st"] == "accepted" \
+                    if r["a"] == "Cancel" and r["res"] == "ok" and r["k"] == k + 1 \
+                            and tr[i - 1]["inv"][k]["st"] in ("open", "accepted") \
+                            and any(h["st"] == "accepted" for h in tr[i - 1]["inv"][k]["h"]) \
                             and any(h["st"] == "canceled" for h in tr[i - 1]["inv"][k]["h"]):
                         out["hold_canceled_with_canceled_shard"] += 1
                     if x["st"] == "accepted" and tr[i - 1]["inv"][k]["st"] == "open" and can:
